@@ -668,7 +668,7 @@ def parse(s, strictmode=True, expansionlimit=None, convertpos=False, proceedoner
     # find the 'real' end incase we have a heredoc in there
     ef = _endfinder()
     ef.visit(parts[-1])
-    index = max(parts[-1].pos[1], ef.end) + 1
+    index = max(parts[-1].pos[1], ef.end, 1)
     while index < len(s):
         part = _parser(s[index:], strictmode=strictmode, expansionlimit=expansionlimit, proceedonerror=proceedonerror).parse()
 
@@ -679,7 +679,8 @@ def parse(s, strictmode=True, expansionlimit=None, convertpos=False, proceedoner
         parts.append(part)
         ef = _endfinder()
         ef.visit(parts[-1])
-        index = max(parts[-1].pos[1], ef.end) + 1
+        # always advance: the node of an unsupported 'time' command has an empty span
+        index = max(parts[-1].pos[1], ef.end, index + 1)
 
     if convertpos:
         for tree in parts:
